@@ -2,6 +2,8 @@
    This file contains only property statements, closed by `exact`. *)
 From Coq Require Import ZArith NArith List Bool Lia.
 From PL.C09 Require Import BoolGraph Strat Avoid ClarkBase GenClark ClarkProofs CyclesModel BuilderProofs CyclesProofs Validate ValidateProofs.
+From PL.C09 Require Import CyclesEvModel CyclesEvProofs CyclesEvCond.
+From PL.C06 Require ModelPropagate ProofsPropagate ModelWMC.
 Import ListNotations.
 
 (* ------------------------------------------------------------------ semantics of (cyclic) and-or graphs *)
@@ -145,6 +147,109 @@ Theorem C09_break_cycles_nomemo : forall tc src ai labeled evidence D ks1 ks2 a 
 Proof. exact break_cycles_nomemo_correct. Qed.
 Print Assumptions C09_break_cycles_nomemo.
 
+(* ------------------------------------------------------------------ cycle breaking on a formula with propagated evidence *)
+(* CyclesEvModel.bc_ev / break_cycles_ev_m: the same model with the look-up
+   `source.get_evidence_value(nodeid)` of the query pass (cycles.py:111-118); `evm` is the source
+   formula's `lookup_evidence` (key -> TRUE/FALSE; the type of the result of the model of
+   LogicFormula.propagate in PL.C06).  The old model is literally the empty-map instance. *)
+Theorem C09_break_cycles_empty_map : forall tc use_memo src ai labeled evidence,
+    break_cycles_ev_m tc use_memo src ai [] labeled evidence = break_cycles_m tc use_memo src ai labeled evidence.
+Proof. exact break_cycles_ev_nil. Qed.
+Print Assumptions C09_break_cycles_empty_map.
+
+(* one top-level call: structure is preserved unconditionally; the returned key has the model
+   value of the literal whenever the consulted entries of the map hold in the model s *)
+Theorem C09_break_cycles_call_with_evidence_map : forall src a s lvl,
+    is_model src a s ->
+    (forall k nd c, node_at src k = Some nd -> In c (children nd) ->
+                    ((0 < c)%Z -> lvl (key_of c) <= lvl k) /\ ((c < 0)%Z -> lvl (key_of c) < lvl k)) ->
+    forall ai tc use_memo is_ev evm fuel t m c r,
+      topo (t_nodes t) -> memo_okg src a s is_ev evm t m ->
+      bc_ev fuel tc use_memo src ai evm is_ev t m c [] = Some r ->
+      ext t (r_tgt r) /\ topo (t_nodes (r_tgt r)) /\ memo_okg src a s is_ev evm (r_tgt r) (r_memo r) /\
+      key_valid (r_tgt r) (r_key r) /\
+      ((forall k b, ev_lookup evm is_ev k = Some b -> s k = b) -> val a (r_tgt r) (r_key r) = lit_val s c).
+Proof. exact bc_top_value_ev. Qed.
+Print Assumptions C09_break_cycles_call_with_evidence_map.
+
+(* THE statement asked for.  `ev` = the evidence literals; the map is SOUND for the evidence when
+   every model (under any atom assignment) that satisfies `ev` gives the listed nodes the listed
+   values -- exactly what C06_propagate_sound establishes for the map LogicFormula.propagate
+   computes.  Then: the produced graph is acyclic, every evidence key has the least-model value for
+   EVERY assignment, and every query-like key has it for every assignment whose model satisfies
+   the evidence. *)
+Theorem C09_break_cycles_correct_with_evidence_map :
+  forall tc use_memo src ai evm (ev : list Z) labeled evidence D ks1 ks2,
+    stratified src ->
+    (forall a s, is_model src a s -> ProofsPropagate.sat_lits s ev -> ProofsPropagate.holds_in s evm) ->
+    break_cycles_ev_m tc use_memo src ai evm labeled evidence = Some (D, ks1, ks2) ->
+    forall a s, is_model src a s ->
+      topo D /\
+      Forall2 (fun n k => key_val (vget (dag_val a D)) k = key_val s n) evidence ks2 /\
+      (ProofsPropagate.sat_lits s ev ->
+       Forall2 (fun n k => key_val (vget (dag_val a D)) k = key_val s n) labeled ks1).
+Proof.
+  intros tc um src ai evm ev labeled evidence D ks1 ks2 ST SOUND H a s M.
+  destruct (break_cycles_ev_correct tc um src ai evm labeled evidence D ks1 ks2 a s M ST H) as [T [F2 F1]].
+  split; auto. split; auto. intros SAT.
+  eapply Forall2_impl; [|exact F1]. intros n k Q. apply Q. apply (SOUND a s M SAT).
+Qed.
+Print Assumptions C09_break_cycles_correct_with_evidence_map.
+
+(* the same for a map that is only known to hold in the model at hand (e.g. entries contributed by
+   ConstraintAD.add, which hold in the worlds that satisfy the AD constraints) *)
+Theorem C09_break_cycles_correct_with_evidence_map_pointwise :
+  forall tc use_memo src ai evm labeled evidence D ks1 ks2 a s,
+    is_model src a s -> stratified src ->
+    break_cycles_ev_m tc use_memo src ai evm labeled evidence = Some (D, ks1, ks2) ->
+    topo D /\
+    Forall2 (fun n k => key_val (vget (dag_val a D)) k = key_val s n) evidence ks2 /\
+    Forall2 (fun n k => ProofsPropagate.holds_in s evm -> key_val (vget (dag_val a D)) k = key_val s n) labeled ks1.
+Proof. exact break_cycles_ev_correct. Qed.
+Print Assumptions C09_break_cycles_correct_with_evidence_map_pointwise.
+
+(* P(q | e) is unchanged: for every weight function, every list of atoms, every world filter cst
+   (AD constraints), `model a` = the model of the cyclic program under a:
+   the conditional probability of every query-like name, computed on the acyclic program with
+   its evidence keys, equals the one of the cyclic program *)
+Theorem C09_break_cycles_cond_prob_with_evidence_map :
+  forall tc use_memo src ai evm labeled evidence want D ks1 ks2
+         (model : (N -> bool) -> nat -> bool) (cst : (N -> bool) -> bool) (w : N -> QArith_base.Q) ids,
+    stratified src -> (forall a, is_model src a (model a)) ->
+    ev_map_sound model cst evidence want evm ->
+    break_cycles_ev_m tc use_memo src ai evm labeled evidence = Some (D, ks1, ks2) ->
+    Forall2 (fun q k =>
+               ModelWMC.cond_prob w ids (fun a => key_val (vget (dag_val a D)) k)
+                         (fun a => cst a && ev_holds (vget (dag_val a D)) ks2 want)
+               = ModelWMC.cond_prob w ids (fun a => key_val (model a) q)
+                           (fun a => cst a && ev_holds (model a) evidence want)) labeled ks1.
+Proof. exact break_cycles_ev_cond_prob. Qed.
+Print Assumptions C09_break_cycles_cond_prob_with_evidence_map.
+
+(* link with C06: the map the model of LogicFormula.propagate computes from the evidence literals
+   engine.ground_evidence passes (ev_nodes) is sound, for every pop order and every fuel ... *)
+Theorem C09_propagated_map_sound : forall src model evidence want sched fuel evm,
+    (forall a, is_model src a (model a)) ->
+    ModelPropagate.propagate_m src (ev_nodes evidence want) [] sched fuel = ModelPropagate.Done evm ->
+    ev_map_sound model (fun _ => true) evidence want evm.
+Proof. exact propagate_map_sound. Qed.
+Print Assumptions C09_propagated_map_sound.
+
+(* ... hence ground_evidence(propagate_evidence=True) followed by break_cycles keeps P(q | e) *)
+Theorem C09_break_cycles_propagated_cond_prob :
+  forall tc use_memo src ai labeled evidence want sched fuel evm D ks1 ks2
+         (model : (N -> bool) -> nat -> bool) (w : N -> QArith_base.Q) ids,
+    stratified src -> (forall a, is_model src a (model a)) ->
+    ModelPropagate.propagate_m src (ev_nodes evidence want) [] sched fuel = ModelPropagate.Done evm ->
+    break_cycles_ev_m tc use_memo src ai evm labeled evidence = Some (D, ks1, ks2) ->
+    Forall2 (fun q k =>
+               ModelWMC.cond_prob w ids (fun a => key_val (vget (dag_val a D)) k)
+                         (fun a => true && ev_holds (vget (dag_val a D)) ks2 want)
+               = ModelWMC.cond_prob w ids (fun a => key_val (model a) q)
+                           (fun a => true && ev_holds (model a) evidence want)) labeled ks1.
+Proof. exact break_cycles_propagated_cond_prob. Qed.
+Print Assumptions C09_break_cycles_propagated_cond_prob.
+
 (* ------------------------------------------------------------------ verified validators *)
 Theorem C09_validate_break_sound : forall F D pairs,
     validate_break F D pairs = true ->
@@ -214,4 +319,22 @@ Proof.
       repeat (destruct Hn as [<-|Hn]; [simpl in Hc; repeat (destruct Hc as [<-|Hc]; [discriminate|]); try destruct Hc|]).
       destruct Hn.
   - vm_compute. reflexivity.
+Qed.
+
+(* evidence map: 1 = a, 2 = b, 3 = d := a,b ; 4 = e := d ; e := g ; 5 = g := e,a  (cycle e <-> g);
+   evidence d = true.  propagate derives d, a, b; with that map the query e folds to TRUE, and
+   the query g (= e, a) as well; without the map both are copied. *)
+Definition ex_E : graph := [NAtom 1; NAtom 2; NAnd [1; 2]%Z; NOr [3; 5]%Z; NAnd [4; 1]%Z].
+Definition ex_evm : ModelPropagate.cur := [(2, true); (1, true); (3, true)].
+
+Example C09_example_evidence_map :
+  ModelPropagate.propagate_m ex_E (ev_nodes [Some 3%Z] [Some true]) [] [] 10 = ModelPropagate.Done ex_evm /\
+  break_cycles_ev_m false true ex_E ex_ai ex_evm [Some 4%Z; Some 5%Z] [Some 3%Z]
+  = Some ([NAtom 1; NAtom 2; NAnd [1; 2]%Z], [Some 0%Z; Some 0%Z], [Some 3%Z]) /\
+  break_cycles_ev_m false true ex_E ex_ai [] [Some 4%Z; Some 5%Z] [Some 3%Z]
+  = Some ([NAtom 1; NAtom 2; NAnd [1; 2]%Z; NAnd [3; 1]%Z], [Some 3%Z; Some 4%Z], [Some 3%Z]) /\
+  stratified ex_E.
+Proof.
+  split; [|split; [|split]]; try (vm_compute; reflexivity).
+  apply (stratb_sound ex_E [0; 0; 0; 0; 0; 0]). reflexivity.
 Qed.
